@@ -126,7 +126,7 @@ func discharge(vc *VC, o *Obligation, dir string, timeout time.Duration, seed in
 	}
 	ctx, cancel := context.WithCancel(context.Background())
 	defer cancel()
-	ch := make(chan solveOut, len(solvers)+5)
+	ch := make(chan solveOut, len(solvers)+8)
 	var wg sync.WaitGroup
 	start := time.Now()
 	launch := func(sd solverDef, delay time.Duration) {
@@ -193,6 +193,32 @@ func discharge(vc *VC, o *Obligation, dir string, timeout time.Duration, seed in
 			defer wg.Done()
 			so := runSolver(ctx, solvers[0], timeout, fileSK)
 			so.solver = "z3-new(skolem-goal)"
+			if so.result != "unsat" {
+				so.result = "unknown"
+			}
+			ch <- so
+		}()
+	}
+	// element access kept abstract: the same query without the definitional axioms at.T(h,s,i) = h[arr s][off s + i].
+	// Every heap update also states its effect over at-terms, so proofs about contents usually do not need the raw
+	// selects, and without them E-matching does not wander through the store chains of temporary (varargs) arrays.
+	// Facts are dropped, so only "unsat" counts.
+	if !o.Vacuity && strings.Contains(text, "(! (= (at.") {
+		var kept []string
+		for _, l := range strings.Split(text, "\n") {
+			if strings.HasPrefix(l, "(assert (forall ((h (Array Int (Array Int ") && strings.Contains(l, "(s Slice) (i Int)) (! (= (at.") {
+				continue
+			}
+			kept = append(kept, l)
+		}
+		fileOA := strings.TrimSuffix(file, ".smt2") + ".opaqueat.smt2"
+		os.WriteFile(fileOA, []byte(strings.Join(kept, "\n")), 0o644)
+		n++
+		wg.Add(1)
+		go func() {
+			defer wg.Done()
+			so := runSolver(ctx, solvers[0], timeout, fileOA)
+			so.solver = "z3-new(opaque-at)"
 			if so.result != "unsat" {
 				so.result = "unknown"
 			}
